@@ -475,13 +475,26 @@ def key_rdkit(repo, tier="quick"):
                     # atoms of a bead: keys of the bead's own per-node graph
                     e = elem_of(k)
                     if e and e[0] in ("key", "elem"):
-                        c = is_call(strip_wrappers(e[1]), "networkx.get_node_attributes")
-                        src = c[0][0] if c and c[0] else strip_wrappers(e[1])
+                        cont = strip_wrappers(e[1])
+                        if cont[0] == "comp" and cont[1] == "dict" and cont[3][0] == "tuple" and len(cont[3][1]) == 2:
+                            # {atom: ... for atom, ... in <bead graph>.nodes.items()}: the keys of the comprehension are the keys it iterates
+                            e2 = elem_of(cont[3][1][0])
+                            if e2 and e2[0] in ("key", "elem"):
+                                cont = strip_wrappers(e2[1])
+                        c = is_call(cont, "networkx.get_node_attributes")
+                        src = c[0][0] if c and c[0] else cont
                         if src[0] == "attr" and src[2] == "nodes":
                             src = src[1]
                         na = node_attr(src)
                         if na and na[0] in graphs and na[2] == ("const", "graph"):
                             cls = "node"
+                        elif src[0] == "sub" and src[2] == ("const", "graph"):
+                            # the attribute dict of a bead taken from <cg>.nodes.values() / .nodes(data=True)
+                            ev = elem_of(src[1])
+                            if ev and ev[0] == "value":
+                                holder = strip_wrappers(ev[1])
+                                if holder[0] == "attr" and holder[2] == "nodes" and holder[1] in graphs:
+                                    cls = "node"
                 n_sites += 1
                 if cls in ("node", "node-by-position"):
                     obs.append(ob_ok(oid, fi, sub, construct="%s.nodes[<%s>]" % (show(g), cls), instance=fi.name + ":" + cls,
